@@ -33,7 +33,7 @@ def _run_one(args):
         return st
     except BaseException as e:  # harness error: reported as inconclusive, never as a pass
         return dict(instance=iname, harness_error="%s: %s" % (type(e).__name__, e), tb=traceback.format_exc()[-1500:],
-                    paths=0, vacuous=0, checks=0, decisions=0, solver_s=0.0, unsupported=0, ok=0, failing_paths=0,
+                    paths=0, vacuous=0, checks=0, decisions=0, solver_s=0.0, unsupported=0, ok=0, failing_paths=0, refused=0,
                     exhaustive=False, wall_s=round(time.time() - t0, 2), fails=[], samples=[], functions=[], unsupported_sites={})
 
 
@@ -211,6 +211,7 @@ def check(prop, tier, seed, only=None, jobs=None, budget=None, max_wall=None):
             "paths_holding": tot("ok"),
             "paths_failing": tot("failing_paths"),
             "paths_vacuous": tot("vacuous"),
+            "paths_refused_by_rope": tot("refused"),
             "solver": "z3 %s (QF_LIA via python API)" % _z3ver(),
             "solver_queries": tot("checks"),
             "solver_time_s": round(sum(r["solver_s"] for r in results), 2),
